@@ -1000,6 +1000,183 @@ def check_instances(run, gen):
     return mcases
 
 
+# ==========================================================================================================
+# Pattern-valued outputs (helper agreement): patterns whose yielded VALUES are pattern objects - PDictKey over a dict of
+# patterns, PConstant(pattern) behind PSubsequence / PStutter / PLoop / PRef, seeded PShuffle / PChoice / PRandomWalk /
+# PSample over lists containing patterns, PFunc.  next(), nextn, for, all, len must agree at every position: the helpers
+# return the OBJECTS next() returns (observed by class name) and do not resolve / advance them.  Oracle: lib_judge
+# (helpers simulated from repeated next() on a fresh instance).  Model: Pat/PatValued.v (C09_nextn_returns_the_objects).
+# PMap family with a FINITE pattern as extra positional argument (PMap, PMapEnumerated, PRound, PScaleLinLin, PScaleLinExp):
+# the pattern must END with StopIteration - for ever - where its shortest input ends, also under the helpers and on a
+# Track that drains (theorem: C09More, GP_map).
+# ==========================================================================================================
+PV_CELLS = ["iso.PSeries(60, 1)", "iso.PSequence([1, 2], 1)", "iso.PGeom(1, 2, 3)", "iso.PRange(0, 4, 1)"]
+PV_NAMES = ["PSeries", "PSequence", "PGeom", "PRange"]
+
+
+def pv_case(rng):
+    """(source, finite?, Coq selector expression | None): cells are patterns of four distinct classes, so that the object a
+    value is can be recognised by its class name; in the model a cell is its address 1000 + i"""
+    k = rng.sample(range(4), rng.randint(2, 3))
+    addr = lambda i: "(EV (VInt %d))" % (1000 + i)
+    t = rng.randrange(9)
+    if t == 0:
+        keys = [rng.choice("ab"[:len(k[:2])]) for _ in range(rng.randint(2, 6))]
+        rep = rng.randint(1, 2)
+        return ("iso.PDictKey({'a': %s, 'b': %s}, iso.PSequence(%r, %d))" % (PV_CELLS[k[0]], PV_CELLS[k[1]], keys, rep), True,
+                "(ECall CDictKey [ED [(\"a\"%%string, %s); (\"b\"%%string, %s)]; EP (ECall CSequence [EL %s; EV (VInt %d)])])" % (
+                    addr(k[0]), addr(k[1]), lst(["(EV (VStr \"%s\"))" % x for x in keys]), rep))
+    if t == 1:
+        n = rng.randint(1, 5)
+        return ("iso.PSubsequence(iso.PConstant(%s), 0, %d)" % (PV_CELLS[k[0]], n), True,
+                "(ECall CSubsequence [EP (ECall CConstant [%s]); EV (VInt 0); EV (VInt %d)])" % (addr(k[0]), n))
+    if t == 2:
+        n, m = rng.randint(1, 3), rng.randint(1, 3)
+        return ("iso.PStutter(iso.PSubsequence(iso.PConstant(%s), 0, %d), %d)" % (PV_CELLS[k[0]], n, m), True,
+                "(ECall CStutter [EP (ECall CSubsequence [EP (ECall CConstant [%s]); EV (VInt 0); EV (VInt %d)]); EV (VInt %d)])" % (addr(k[0]), n, m))
+    if t == 3:
+        n, m = rng.randint(1, 3), rng.randint(1, 3)
+        return ("iso.PLoop(iso.PSubsequence(iso.PConstant(%s), 0, %d), %d)" % (PV_CELLS[k[0]], n, m), True,
+                "(ECall CLoop [EP (ECall CSubsequence [EP (ECall CConstant [%s]); EV (VInt 0); EV (VInt %d)]); EV (VInt %d)])" % (addr(k[0]), n, m))
+    if t == 4:
+        return "iso.PRef(iso.PConstant(%s))" % PV_CELLS[k[0]], False, "(ECall CRef [EP (ECall CConstant [%s])])" % addr(k[0])
+    cells = "[%s]" % ", ".join(PV_CELLS[i] for i in k)
+    if t == 5:
+        return "iso.PShuffle(%s, %d)%s" % (cells, rng.randint(1, 2), _sd(rng)), True, None
+    if t == 6:
+        return "iso.PSubsequence(iso.PChoice(%s)%s, 0, %d)" % (cells, _sd(rng), rng.randint(2, 6)), True, None
+    if t == 7:
+        return "iso.PSubsequence(iso.PRandomWalk(%s, 1, 1)%s, 0, %d)" % (cells, _sd(rng), rng.randint(2, 6)), True, None
+    return "iso.PSubsequence(iso.PFunc(lambda: %s), 0, %d)" % (PV_CELLS[k[0]], rng.randint(1, 4)), True, None
+
+
+def pv_obs_coq(o):
+    """observation -> Coq outcome, a pattern object (class name) written as the address of its cell"""
+    def conv(j):
+        if isinstance(j, dict) and "o" in j:
+            if j["o"] in PV_NAMES:
+                return 1000 + PV_NAMES.index(j["o"])
+            raise Unrepresentable(j["o"])
+        if isinstance(j, dict) and "l" in j:
+            return {"l": [conv(x) for x in j["l"]]}
+        return j
+    if isinstance(o, dict) and "y" in o:
+        return obs_coq({"y": conv(o["y"])})
+    return obs_coq(o)
+
+
+def check_helper_values(run, gen):
+    rng = run.rng
+    thorough = run.tier == "thorough"
+    cases = []
+    for i in range(1200 if thorough else 120):
+        src_, fin, coq = pv_case(rng)
+        cases.append({"cls": "pattern-valued", "src": src_, "finite": fin, "script": [list(o) for o in lib_script(rng, fin)], "track": None, "coq": coq})
+    # the PMap family with a finite pattern as extra positional argument: n = where the shortest input ends
+    fam = []
+    for i in range(1200 if thorough else 120):
+        la = rng.randint(0, 5)
+        arg = "iso.PSequence(%r, 1)" % [rng.randint(0, 2) for _ in range(la)]
+        lin = rng.choice([None, None, la, la + 2, max(0, la - 1)])
+        inp = "iso.PSeries(%d, 1)" % rng.randint(0, 9) if lin is None else "iso.PSequence(%r, 1)" % [rng.randint(0, 9) for _ in range(lin)]
+        t = i % 6
+        if t == 0:
+            s_ = "iso.PMap(%s, max, %s)" % (inp, arg)
+        elif t == 1:
+            s_ = "iso.PMapEnumerated(%s, (lambda i, x, a: i + x + a), %s)" % (inp, arg)
+        elif t == 2:
+            s_ = "iso.PRound(%s, %s)" % (inp, arg)
+        elif t == 3:
+            s_ = "iso.PScaleLinLin(%s, %s, 20, 0, 1)" % (inp, arg.replace("iso.PSequence(", "iso.PSequence(").replace("[", "[-1 - ", 1) if False else arg)
+        elif t == 4:
+            s_ = "iso.PMap(%s, (lambda x, a, b: x + a + b), 1, %s)" % (inp, arg)
+        else:
+            s_ = "iso.PStutter(iso.PRound(%s, %s), 2)" % (inp, arg)
+        n = la if lin is None else min(la, lin)
+        n = 2 * n if t == 5 else n
+        fam.append({"cls": "PMap-family", "src": s_, "finite": True, "n": n, "script": [list(o) for o in lib_script(rng, True)], "track": track_cfg(rng)})
+    outs = run_lib(run, cases + fam)
+    found, terms, owners = [], [], []
+    for c, out in zip(cases, outs[:len(cases)]):
+        run.count(); run.dist("stream.pattern-valued-outputs")
+        bad, notes = lib_judge(c, out)
+        if "script-judged" in notes:
+            run.dist("patvalued.script-judged"); run.nontrivial("pv " + c["src"] + repr(c["script"]))
+        run.cov["oracle_evaluations"] += len(out.get("script") or ())
+        bad = [(sig, doc) for sig, doc in bad if sig["kind"] in ("copy", "helper")]
+        for sig, doc in bad:
+            found.append((len(c["src"]) + 10 * len(c["script"]), len(found), dict(sig, stream="pattern-valued-outputs"), doc))
+        if bad or c["coq"] is None or out.get("status") or len(out.get("script", ())) < 2:
+            continue
+        try:
+            ops = [op_coq(tuple(o)) for o in c["script"]]
+            terms.append("(match cmpr %s %s %s with Agree => 0 | Disagree => 1 | Discard => 2 end)%%nat" % (c["coq"], lst(ops), lst([pv_obs_coq(o) for o in out["script"]])))
+            owners.append((c, out))
+        except Unrepresentable:
+            run.discard("patvalued model: unrepresentable")
+    for c, out in zip(fam, outs[len(cases):]):
+        run.count(); run.dist("stream.pmap-family-finite-argument")
+        if out.get("status") or len(out.get("ref", ())) < 2:
+            run.discard("pmapfamily: constructor raised / timeout"); continue
+        ref, n = out["ref"][1:], c["n"]
+        run.cov["oracle_evaluations"] += len(ref) + len(out.get("script") or ())
+        run.nontrivial("pmapfam " + c["src"])
+        doc = {"case": {"src": c["src"], "ops": c["script"]}, "reference_next_outputs": [pretty_obs(o) for o in out["ref"][:n + 8]]}
+        sig = None
+        head_ok = all(isinstance(o, dict) and "y" in o for o in ref[:n])
+        if head_ok and any(o != "stop" for o in ref[n:]):
+            j = next(j for j, o in enumerate(ref[n:]) if o != "stop")
+            sig = {"kind": "no-stopiteration-at-the-end", "class": "PMap-family"}
+            doc.update(expected="StopIteration on call %d and on every later call (the shortest input ends after %d values)" % (n + j, n),
+                       observed="call %d: %s" % (n + j, canon_obs(ref[n + j])), python=lib_snippet(c["src"], [("next", 0)] * (n + j + 1)))
+        elif head_ok and out.get("script") and len(out["script"]) > 1:
+            try:
+                want = simulate(ref[:n] + ["stop"] * (len(ref) - n), [tuple(o) for o in c["script"]], None)
+                got = out["script"][1:]
+                for j, w in enumerate(want):
+                    if j >= len(got) or canon_obs(got[j]) != canon_obs(w):
+                        sig = {"kind": "helper", "op": c["script"][j][0], "class": "PMap-family"}
+                        doc.update(expected="operation %d (%s): %s" % (j, c["script"][j][0], canon_obs(w)), observed=canon_obs(got[j]) if j < len(got) else "nothing",
+                                   python=lib_snippet(c["src"], [tuple(o) for o in c["script"][:j + 1]]))
+                        break
+            except CannotJudge:
+                pass
+        t = out.get("track")
+        if sig is None and head_ok and t and t.get("error"):
+            sig = {"kind": "track-raises", "class": "PMap-family"}
+            doc.update(expected="the drained track ends quietly", observed="Timeline.tick raised %s" % t["error"], python=lib_snippet(c["src"], track=c["track"]))
+        if sig:
+            found.append((len(c["src"]), len(found), sig, doc))
+    seen = set()
+    for _, _, sig, doc in sorted(found, key=lambda t: t[:2]):
+        key = json.dumps(sig, sort_keys=True)
+        if key not in seen and len(seen) < 5:
+            seen.add(key)
+            run.violation(sig, doc)
+    bad = run.coq_failing(HEADER, ["Nat.eqb %s 0 || Nat.eqb %s 2" % (t, t) for t in terms], chunk=60)
+    run.cov["traces_validated_against_impl"] += len(terms) - len(bad)
+    run.cov["pattern_valued_model_comparisons"] = len(terms)
+    if bad:
+        c, out = owners[bad[0]]
+        run.violation({"kind": "correspondence", "class": "pattern-valued", "model": "Pat/PatValued.v"}, {
+            "broken": "correspondence (a pattern whose outputs are pattern objects: the selector of Pat/PatValued.v yields addresses) vs the implementation: "
+                      "C09_nextn_returns_the_objects no longer speaks about this code",
+            "case": {"src": c["src"], "ops": c["script"]}, "observed": [pretty_obs(o) for o in out["script"]]}, found_input=False)
+    # the model's PRound with a finite pattern argument (Props/C09More.v, GP_map): correspondence on the same dimension
+    mc = []
+    for i in range(400 if thorough else 40):
+        e = gen.mark(E("PRound", gen.gen(1, rng.random() < 0.5), gen.mark(E("PSequence", [rng.choice([0, 1, 2]) for _ in range(rng.randint(0, 4))], 1), True)), True)
+        mc.append(Case(e, [("next", 0)] * 12, "pround-finite-arg"))
+    run_impl(run, mc, shards=4)
+    return mc
+
+
+META["text"] += (" Patterns whose outputs are pattern objects: the helpers return the objects next() returns and leave them untouched "
+                 "(Pat/PatValued.v, C09_nextn_returns_the_objects, C09_helpers_leave_yielded_patterns; stratum pattern-valued-outputs); members of the PMap "
+                 "family with a finite pattern as extra positional argument end with StopIteration for ever where their shortest input ends, under next, the "
+                 "helpers and on a draining Track (stratum pmap-family-finite-argument; theorem: Props/C09More.v, GP_map).")
+
+
 model_exprs_by_src = {}
 
 
@@ -1196,6 +1373,7 @@ def check(run):
 
     # ---- several instances / copies alive together, rewound at different moments
     inst_cases = check_instances(run, gen)
+    inst_cases = inst_cases + check_helper_values(run, gen)
 
     # ---- helpers and copies against repeated next() on a fresh instance
     def judge_script(c):
